@@ -53,13 +53,13 @@ PROPS = {
     ),
     "C03": dict(
         title="Point addition, doubling and negation implement the complete group law",
-        verus=[("ed25519_law", None, "quick"), ("jq255e_law", None, "quick"), ("jq255s_law", None, "quick"), ("gf255_m64_ops", None, "quick"), ("gf255_m64_lin", None, "quick"),
+        verus=[("ed25519_law", None, "quick"), ("jq255e_law", None, "quick"), ("jq255s_law", None, "quick"), ("ed448_law", None, "quick"), ("gf255_m64_ops", None, "quick"), ("gf255_m64_lin", None, "quick"),
                ("gf255_m64_shift", None, "quick"), ("gf255_m64_mul", 120, "quick", ARITH6, 300, PORTFOLIO)],
         kani=[],
-        level_text="jq255e and jq255s: set_add, set_add_affine_extended, set_sub_affine_extended, set_neg, set_condneg, set_double, set_xdouble (loop invariant, any n), isneutral and equals are proved by Verus to compute, as field values, exactly the formulas of extra/jq255-formulas.txt (general addition, addition with affine, negation, doubling to Jacobian, extra doublings in Jacobian coordinates incl. the halved jq255s variant, conversion XWJ -> EZUT, neutral and equality tests) with the curve constants ap, bp substituted; on GF255 operator contracts discharged in the same run. edwards25519: set_add, set_sub, set_double, set_xdouble (loop invariant, any n), set_neg, set_condneg and the &Point negation are proved by Verus to compute, as field values, exactly the RFC 8032 section 5.1.4 addition / doubling formulas (constant 2d checked by evaluation), on top of the GF255 operator contracts that are themselves discharged in the same run. That those formulas are the complete group law for every pair of curve points (Hisil-Wong-Carter-Dawson, d non-square) is the mathematical lemma this check assumes. Every other curve and set_mul_small: stand-in only.",
+        level_text="edwards448: set_add, set_add_affine, set_double, set_xdouble, set_neg, set_condneg compute exactly the RFC 8032 section 5.2.4 projective formulas (d = -39081), equals / isneutral are the cross-multiplied comparisons - on declared GF448 operation contracts. jq255e and jq255s: set_add, set_add_affine_extended, set_sub_affine_extended, set_neg, set_condneg, set_double, set_xdouble (loop invariant, any n), isneutral and equals are proved by Verus to compute, as field values, exactly the formulas of extra/jq255-formulas.txt (general addition, addition with affine, negation, doubling to Jacobian, extra doublings in Jacobian coordinates incl. the halved jq255s variant, conversion XWJ -> EZUT, neutral and equality tests) with the curve constants ap, bp substituted; on GF255 operator contracts discharged in the same run. edwards25519: set_add, set_sub, set_double, set_xdouble (loop invariant, any n), set_neg, set_condneg and the &Point negation are proved by Verus to compute, as field values, exactly the RFC 8032 section 5.1.4 addition / doubling formulas (constant 2d checked by evaluation), on top of the GF255 operator contracts that are themselves discharged in the same run. That those formulas are the complete group law for every pair of curve points (Hisil-Wong-Carter-Dawson, d non-square) is the mathematical lemma this check assumes. Every other curve and set_mul_small: stand-in only.",
         level_note="Assumed (not machine-checked): completeness of the unified extended twisted-Edwards formulas. Not reached: ed448, p256, secp256k1, gls254, ristretto255, decaf448 formulas. For jq255e/s the formulas of the reference document are likewise assumed to implement the group law on the Jacobi quartic.",
         assumptions=["the RFC 8032 5.1.4 formulas implement the (complete) twisted-Edwards group law on valid extended coordinates: assumed lemma, sanity-checked by the stand-in cases against an affine big-integer reference"],
-        not_reached=["set_mul_small, set_add_duif/set_sub_duif", "ed448, p256, secp256k1, gls254, ristretto255, decaf448 formulas"],
+        not_reached=["set_mul_small, set_add_duif/set_sub_duif", "p256, secp256k1, gls254, ristretto255, decaf448 formulas"],
         cases=_c(["add_affine_ref", "add_relations", "double_ref", "double_relations", "assoc", "mul_small"]) + ["p256_affine_api", "secp256k1_affine_api"],
     ),
     "C04": dict(
